@@ -247,6 +247,11 @@ pub fn declare(node: &NodeRef) -> Declared {
             stats.push(stat1(&s, pi, "partition_statistics"));
         }
     }
+    // the pluggable statistics registry with the built-in operator providers (operator_statistics/mod.rs)
+    let registry = datafusion::physical_plan::operator_statistics::StatisticsRegistry::default_with_builtin_providers();
+    if let Ok(s) = registry.compute_base(plan.as_ref()) {
+        stats.push(stat1(&s, -2, "registry")); // -2 = whole node, computed by the statistics registry
+    }
     Declared { reg, ords, outord, classes, consts, hash, np, part_text: format!("{part}"), stats, own_ord }
 }
 
@@ -702,6 +707,15 @@ pub fn direct_c30_fns(nd: &NodeData) -> Vec<Value> {
     out
 }
 
+/// Statistic value equality: floats numerically (-0.0 = 0.0: Parquet writes a zero minimum as -0.0), everything else exactly.
+fn same_stat_value(a: &ScalarValue, b: &ScalarValue) -> bool {
+    match (a, b) {
+        (ScalarValue::Float64(Some(x)), ScalarValue::Float64(Some(y))) => x == y,
+        (ScalarValue::Float32(Some(x)), ScalarValue::Float32(Some(y))) => x == y,
+        _ => a == b,
+    }
+}
+
 pub fn direct_c29(nd: &NodeData) -> Vec<Value> {
     let mut out = vec![];
     if !nd.full || nd.streams.iter().any(|s| !s.shape_ok()) {
@@ -752,7 +766,7 @@ pub fn direct_c29(nd: &NodeData) -> Vec<Value> {
             for (decl, is_max, f) in [(min, false, "min"), (max, true, "max")] {
                 if let (Some(d), Some(actual)) = (decl.as_ref().and_then(|v| to_pos_type(nd, c + 1, v)), ext(is_max)) {
                     // Exact(NULL) is the engine's convention for "no value known" (its own consumers skip it)
-                    if !d.is_null() && d != actual {
+                    if !d.is_null() && !same_stat_value(&d, &actual) {
                         push(f, c + 1);
                     }
                 }
@@ -788,6 +802,17 @@ pub fn direct_c53(nd: &NodeData) -> Vec<Value> {
         let emitted: usize = nd.streams.iter().map(|s| s.nrows()).sum();
         if m != emitted {
             out.push(bad(nd.id, -1, "output_rows", 0));
+        }
+        // output_rows of each partition separately (when every output_rows metric carries a partition label)
+        if nd.metric_part_rows.values().sum::<usize>() == m {
+            let mut parts: std::collections::BTreeSet<usize> = nd.metric_part_rows.keys().copied().collect();
+            parts.extend(nd.streams.iter().map(|s| s.part));
+            for p in parts {
+                let e: usize = nd.streams.iter().filter(|s| s.part == p).map(|s| s.nrows()).sum();
+                if nd.metric_part_rows.get(&p).copied().unwrap_or(0) != e {
+                    out.push(bad(nd.id, p as i64, "part_rows", 0));
+                }
+            }
         }
     }
     out
